@@ -126,4 +126,7 @@ pub struct HyraxProof<G: AffineRepr> {
     pub z_d: G::ScalarField,
     /// Auxiliary random scalar
     pub z_b: G::ScalarField,
+    /// Randomness of the commitment `com_eval`. The evaluation is revealed to
+    /// the verifier, and so is the opening of its commitment
+    pub r_eval: G::ScalarField,
 }
